@@ -39,7 +39,19 @@ CHECKS = {
         'note': 'Trusted: pmc/ref/interp.py; on marker-less graphs only totality and answer types are asserted; small-scope hypothesis.',
         'design_ref': 'DESIGN.md section 4 C14',
     },
+    'C10': {
+        'technique': 'bounded-exhaustive enumeration of trees x name formats against a reference relabelling, plus commutation with the real interpret',
+        'text': 'Every decoration of every tree shape within the bounds (concepts absent / symbol / spelled like a variable / string / _p / number / non-ASCII / aligned; plain and aligned re-entrancies; constants spelled like variables or like generated names; empty nodes) is relabelled by the real Tree.reset_variables under six formats and compared with a reference first-fit bijection applied at definitions and references only; when no constant equals a generated name, interpreting the relabelled tree must equal renaming the interpretation of the original (triples, top, both alignment maps, layout markers).',
+        'note': 'Trusted: the reference relabelling in pmc/props/c10.py (from the docstring of reset_variables); formats without an index are outside the statement; small-scope hypothesis.',
+        'design_ref': 'DESIGN.md section 4 C10',
+    },
+    'C13': {
+        'technique': 'complete enumeration of the role/model product and bounded-exhaustive trees; algebraic laws plus a reference role algebra',
+        'text': 'All roles base x "-of"^0..4 (with/without colon) over literal, pattern, "-of"-defined, normalised, undefined, empty and collision bases are pushed through the real canonicalize_role, has_role, is_role_inverted, invert_role, invert, deinvert and canonicalize of DEFAULT, AMR, NOOP, MINI and every table of the TINY family; each law of the statement is evaluated on every pair and the results are compared with an independent role algebra. canonicalize_roles is run on every tree of TREE(3,3,2) over such roles with alignments: only role text may change, alignments stay, idempotent, argument untouched.',
+        'note': 'Trusted: pmc/ref/roles.py; chained/non-canonical normalisation tables and the involution law on collision roles are excluded as unsatisfiable (DESIGN.md 3.1).',
+        'design_ref': 'DESIGN.md section 4 C13',
+    },
 }
 
 NOT_APPLICABLE = {k: _PENDING for k in
-                  ['C03', 'C05', 'C06', 'C09', 'C10', 'C11', 'C12', 'C13', 'C15', 'C16', 'C17', 'C18', 'C19', 'C20']}
+                  ['C03', 'C05', 'C06', 'C09', 'C11', 'C12', 'C15', 'C16', 'C17', 'C18', 'C19', 'C20']}
